@@ -1,6 +1,7 @@
 package props
 
 import (
+	"strings"
 	"bytes"
 	"fmt"
 	"reflect"
@@ -44,7 +45,7 @@ func c31Fields(pairs bool) *explore.Scenario {
 }
 
 // helloCorpus: wire hellos of every ID / custom spec, plus synthetic variants with extra
-// extensions (present-but-empty bodies and boundary bodies) spliced in.
+// extensions (present-but-empty bodies and boundary bodies) spliced in and server_name values uTLS itself would not send (IP literals, zone ids, one letter, 253 characters).
 func c31Hellos() [][2]any {
 	var out [][2]any
 	add := func(name string, msg []byte) { out = append(out, [2]any{name, msg}) }
@@ -114,6 +115,23 @@ func c31Hellos() [][2]any {
 			}
 			h2.Exts = exts
 			add(b[0].(string)+e.name, rebuildHello(&h2, nil))
+		}
+	}
+	// server_name values a peer may put on the wire although uTLS itself would not: IP literals,
+	// a one-letter name (a trailing dot is rejected by the parser by design), the longest legal name
+	sniBody := func(n string) []byte {
+		return append([]byte{byte((len(n) + 3) >> 8), byte(len(n) + 3), 0, byte(len(n) >> 8), byte(len(n))}, n...)
+	}
+	for i, b := range base {
+		if i%8 != 0 {
+			continue
+		}
+		h, err := wire.ParseClientHello(b[1].([]byte))
+		if err != nil || h.Find(0) == nil {
+			continue
+		}
+		for _, n := range []string{"192.0.2.1", "[::1]", "fe80::1%eth0", "a", strings.Repeat("a", 63) + "." + strings.Repeat("b", 63) + "." + strings.Repeat("c", 63) + "." + strings.Repeat("d", 61)} {
+			add(fmt.Sprintf("%s+sni(%s)", b[0].(string), truncStr(n, 14)), rebuildHello(h, map[uint16][]byte{0: sniBody(n)}))
 		}
 	}
 	return out
@@ -198,7 +216,7 @@ func c31Scenarios(thorough bool) []*explore.Scenario {
 func init() {
 	register(&Prop{ID: "C31", Level: "exploration", Variant: "A", Scenarios: c31Scenarios,
 		Run: func(c *explore.Check, thorough bool) {
-			c.Rule = "reflection-enumerated fields of PubClientHelloMsg, PubServerHelloMsg, CertificateRequestMsgTLS13, PubCipherSuite(TLS13), KeyShare, PskIdentity, TicketKey, KeySharePrivateKeys, FinishedHash: zero, one-hot per field, present-but-empty per slice field, all-set (+ all pairs in thorough) through public->private->public with deep comparison (functions by pointer, nil vs empty distinguished); every corpus hello (all IDs, custom specs, + variants with an extra empty / boundary / large (5 000 - 40 000 byte) extension spliced in): Unmarshal.Marshal == input, and parse / clear Raw / marshal / parse gives equal field values. distinct = (type, pattern) / hello"
+			c.Rule = "reflection-enumerated fields of PubClientHelloMsg, PubServerHelloMsg, CertificateRequestMsgTLS13, PubCipherSuite(TLS13), KeyShare, PskIdentity, TicketKey, KeySharePrivateKeys, FinishedHash: zero, one-hot per field, present-but-empty per slice field, all-set (+ all pairs in thorough) through public->private->public with deep comparison (functions by pointer, nil vs empty distinguished); every corpus hello (all IDs, custom specs, + variants with an extra empty / boundary / large (5 000 - 40 000 byte) extension spliced in, + server_name replaced by IP literals, a zone id, one letter and 253 characters): Unmarshal.Marshal == input, and parse / clear Raw / marshal / parse gives equal field values. distinct = (type, pattern) / hello"
 			c.Assumptions = []string{"fields without a private counterpart by design (PubClientHelloMsg.cachedPrivateHello) are listed in inpkg/roundtrip.go"}
 			runAll(c, c31Scenarios(thorough), 0)
 		}})
